@@ -294,8 +294,20 @@ func c19prop(ev *evid.Rec) func(rt *rapid.T) {
 					} else {
 						c19maybe = append(c19maybe, lost)
 					}
+					// whoever is told about a post finds it on the board
+					told := false
 					for _, c := range cs {
-						c.TakeInbox()
+						for _, tr := range c.TakeInbox() {
+							if d, _ := tr.Get(hlref.FData); tr.Type == hlref.TranNewMsg && bytes.Contains(d, lost.text) {
+								told = true
+							}
+						}
+					}
+					if told {
+						br := cs[len(cs)-1].Request(hlref.TranGetMsgs)
+						if bd, _ := br.Get(hlref.FData); !okReply(br) || !bytes.Contains(bd, lost.text) {
+							rt.Fatalf("round %d: a post made while the board file could not be written (acknowledged: %v) was announced to the connected users, but the board they are served does not hold it", ri, okReply(r))
+						}
 					}
 					// the next post that is acknowledged brings the file up to date with what the server holds
 					id++
